@@ -15,6 +15,7 @@ from mc.runner import Result
 
 PROPERTY = "C01"
 LEVEL = "model_checking"
+TECHNIQUE = "bounded exhaustive enumeration of inputs x engines (explicit-state, real eager call per state) against a NumPy reference model"
 RULE = (
     "state = (reduction, engine, value dtype, label tuple, value tuple); all label tuples over "
     "{0,1,2,missing}^n (float labels with NaN / int labels with an unrequested 7 and expected_groups=[0,1,2]) "
